@@ -26,6 +26,7 @@ Ops ==
   \cup {[o |-> "joinmut", sel |-> x] : x \in {{}, {1}, {2}, {1, 2, 3}}}
   \cup (IF Trk = "none" THEN {} ELSE {[o |-> "setemit", b |-> b] : b \in BOOLEAN})
   \cup (IF Kind \in {"vec", "dense", "defvec"} THEN {[o |-> "slice"]} ELSE {})
+  \cup {[o |-> "restrict", fm |-> x[1], wr |-> x[2]] : x \in {<<{}, {}>>, <<{1}, {1}>>, <<{2}, {2}>>, <<{1, 2, 3}, {2}>>}}
   \cup (IF Faults THEN {[o |-> "clear_f", k |-> k] : k \in 1..2} \cup {[o |-> "delete_f", i |-> i] : i \in Ids \ st.dead}
                        \cup {[o |-> "teardown"]} ELSE {})
 
